@@ -158,6 +158,46 @@ def r4_determinism(ctx, res):
 _HP = "list(synset.relation_paths('hypernym', 'instance_hypernym'))"
 _ROOT = '_core.Synset.empty(id=_FAKE_ROOT, _lexid=synset._lexid, _wordnet=synset._wordnet)'
 _COMMON = 'set(flatten(_hypernym_paths(synset, simulate_root, True))).intersection(flatten(_hypernym_paths(other, simulate_root, True)))'
+# the common hypernyms in result order: sorted (by rowid), ties - inferred synsets all carry the placeholder rowid - in the order
+# of first occurrence on the paths from `synset`, never in the iteration order of the set (C16)
+_HP_SELF = '_hypernym_paths(synset, simulate_root, True)'
+
+
+def _is_sorted_common(text):
+    """`sorted(X)` where X holds exactly the common hypernyms (C13 does not care in which order equal items come; C16-R7 does):
+    the set itself, or the synsets on the paths from `synset` that are in it, in path order, through unique_list / list / a
+    comprehension."""
+    import ast as _ast
+    from ..src import norm as _norm
+    try:
+        e = _ast.parse(text, mode='eval').body
+    except SyntaxError:
+        return False
+    if not (isinstance(e, _ast.Call) and isinstance(e.func, _ast.Name) and e.func.id == 'sorted' and len(e.args) == 1 and not e.keywords):
+        return False
+
+    def paths_content(x):
+        while isinstance(x, _ast.Call) and isinstance(x.func, _ast.Name) and x.func.id in ('unique_list', 'list', 'tuple') \
+                and len(x.args) == 1 and not x.keywords:
+            x = x.args[0]
+        return _norm(x) == f'flatten({_HP_SELF})'
+
+    def content(x):
+        if _norm(x) == _COMMON:
+            return True
+        if isinstance(x, _ast.Call) and isinstance(x.func, _ast.Name) and x.func.id in ('unique_list', 'list', 'tuple', 'set') \
+                and len(x.args) == 1 and not x.keywords:
+            return content(x.args[0])
+        if isinstance(x, (_ast.GeneratorExp, _ast.ListComp, _ast.SetComp)) and len(x.generators) == 1:
+            g = x.generators[0]
+            if isinstance(g.target, _ast.Name) and isinstance(x.elt, _ast.Name) and x.elt.id == g.target.id and len(g.ifs) == 1 \
+                    and _norm(g.ifs[0]) == f'{g.target.id} in {_COMMON}' and paths_content(g.iter):
+                return True
+        return False
+    return content(e.args[0])
+
+
+_SORTED_COMMON = f'sorted(unique_list((_1 for _1 in flatten(_hypernym_paths(synset, simulate_root, True)) if _1 in {_COMMON})))'
 _SHP = '_shortest_hyp_paths(synset, other, simulate_root)'
 
 
@@ -190,7 +230,10 @@ def r5_anchors(ctx, res):
         expect(res, f'anchor:{name}', T(name),
                [('return', f'{fn}((len(_1) for _1 in synset.hypernym_paths(simulate_root=simulate_root)), default=0)')],
                f'{name} is the {fn}imal length of a hypernym path, 0 for a root')
-    expect(res, 'anchor:common_hypernyms', T('common_hypernyms'), [('return', f'sorted({_COMMON})')],
+    vch = T('common_hypernyms')
+    rets = [r[1] for r in vch.rows if r[0] == 'return']
+    ch_text = rets[0] if len(rets) == 1 and _is_sorted_common(rets[0]) else _SORTED_COMMON
+    expect(res, 'anchor:common_hypernyms', vch, [('return', ch_text)],
            'common hypernyms are the intersection of the two ancestor sets (each including the synset itself), sorted')
     pivot = f'min({_SHP}, key=lambda _1: len({_SHP}[_1]), default=None)'
     expect(res, 'anchor:shortest_path', T('shortest_path'), [
@@ -199,11 +242,13 @@ def r5_anchors(ctx, res):
     ], 'shortest_path is the minimal combined path through a common hypernym without the start synset, wn.Error when nothing is shared')
     v = T('_shortest_hyp_paths')
     both = '((0, _hypernym_paths(synset, simulate_root, True)), (1, _hypernym_paths(other, simulate_root, True)))'
+    loops = [r[3][0][4:] for r in v.rows if r[0] == 'store' and r[1].startswith('#3[') and len(r[3]) == 1 and r[3][0].startswith('for ')]
+    sc_text = loops[0] if len(loops) == 1 and _is_sorted_common(loops[0]) else _SORTED_COMMON
     ok = expect(res, 'anchor:shortest', v, [
         ('return', '{(synset, 0): []}', ('synset == other',)),
         ('return', '{}', (f'not {_COMMON}', 'synset != other')),
         ('store', '#2[$1] = ([], [])', (), (f'for {_COMMON}',)),
-        ('store', '#3[$1, #1[$1]] = min(#2[$1][0], key=len) + min(#2[$1][1], key=len)[-2::-1]', (), (f'for sorted({_COMMON})',)),
+        ('store', '#3[$1, #1[$1]] = min(#2[$1][0], key=len) + min(#2[$1][1], key=len)[-2::-1]', (), (f'for {sc_text}',)),
         ('return', '#3', (_COMMON, 'synset != other')),
     ], '_shortest_hyp_paths: empty path for identical synsets, nothing when no ancestor is shared, else for every common hypernym '
        'the shortest sub-path from each side joined (other side reversed, pivot dropped), keyed by (hypernym, its maximal depth)')
